@@ -348,6 +348,44 @@ func ShrinkScenario(sc Scenario) []Scenario {
 	return out
 }
 
+// Requested reports whether the package in directory dir (relative to the module root, "" = root) is matched by one of
+// the entrypoint patterns (".", "./d", "./...", "./d/...") — decided from the scenario alone, without gengo's loader.
+func Requested(entry []string, dir string) bool {
+	for _, e := range entry {
+		if e = strings.TrimPrefix(e, "./"); e == "." {
+			e = ""
+		}
+		switch {
+		case e == "...":
+			return true
+		case strings.HasSuffix(e, "/..."):
+			if d := strings.TrimSuffix(e, "/..."); dir == d || strings.HasPrefix(dir, d+"/") {
+				return true
+			}
+		case e == dir:
+			return true
+		}
+	}
+	return false
+}
+
+// RequestedWorld returns a copy of the world in which "direct" is what the scenario's entrypoints request (Requested)
+// instead of what gengo's loader reported, and the paths of the packages on which the two disagree.
+func RequestedWorld(w *World, entry []string) (*World, []string) {
+	c := *w
+	c.Pkgs = append([]WPkg{}, w.Pkgs...)
+	var diff []string
+	for i := range c.Pkgs {
+		want := Requested(entry, c.Pkgs[i].Dir)
+		if want != c.Pkgs[i].Direct {
+			diff = append(diff, c.Pkgs[i].Path)
+		}
+		c.Pkgs[i].Direct = want
+	}
+	sort.Strings(diff)
+	return &c, diff
+}
+
 // Observation of one scenario run, ready for the case files.
 type Observation struct {
 	Before, After Tree
